@@ -201,16 +201,22 @@ def col_str(c):
 
 
 # ---------------------------------------------------------------------------------------------- observation of the real code
-def snap(x):
-    from mindsdb_sql.parser.ast.base import ASTNode
-    from mindsdb_sql.parser.ast.create import TableColumn
-    if isinstance(x, (ASTNode, TableColumn)):
-        return (type(x).__name__, tuple((k, snap(v)) for k, v in sorted(vars(x).items())))
+def snap(x, depth=0):
+    """deep structural snapshot: every object of a mindsdb_sql class by its class name and ALL its attributes, lists /
+    tuples / sets element-wise, dicts as the ORDERED sequence of (type and repr of key, value) — so a renamed, re-typed
+    or re-ordered key, an appended / removed element or a rebound attribute anywhere below the root shows up"""
+    if depth > 300:
+        return '<deep>'
+    mod = getattr(type(x), '__module__', '') or ''
+    if mod.startswith('mindsdb_sql') and hasattr(x, '__dict__'):
+        return (type(x).__name__, tuple((k, snap(v, depth + 1)) for k, v in sorted(vars(x).items())))
     if isinstance(x, (list, tuple)):
-        return (type(x).__name__, tuple(snap(i) for i in x))
+        return (type(x).__name__, tuple(snap(i, depth + 1) for i in x))
+    if isinstance(x, (set, frozenset)):
+        return (type(x).__name__, tuple(sorted(repr(i) for i in x)))
     if isinstance(x, dict):
-        return ('dict', tuple((repr(k), snap(v)) for k, v in x.items()))
-    return repr(x)
+        return ('dict', tuple(('%s:%r' % (type(k).__name__, k), snap(v, depth + 1)) for k, v in x.items()))
+    return '%s:%r' % (type(x).__name__, x)
 
 
 def snapshot(a):
@@ -471,6 +477,7 @@ SHAPES = [
     "select 'a`b' from a.b.c.d", 'select `a b` from a.b.c.d', 'select trim(both from a)', 'select extract(year from a)',
     'select last', 'select * from t where a > last', 'select * from t where a > latest',
     'select * from int1 (select raw query) t1 join pred m', 'select * from proj (select 1) t',
+    'CREATE MODEL m PREDICT a USING x = CODE ( k = v )', 'CREATE MODEL m PREDICT a USING x = CODE ( k = 1 ), y = z',
 ]
 
 
@@ -617,9 +624,43 @@ def note_parsed(case):
         _cov[case['cov']]['exercised_by_parsed_sentences'] = len(ok)
 
 
+NAMES = ['a', 'MyCol', 'UPPER', '`my col`', '`order`', '`select`', '`MixedCase`', '`a``b`', '`from`', '"q col"', 'col_1', '`1x`']
+TABLES = ['t', 'Db1.Tab1', '`my db`.`my table`', '`order`', 'db.`select`']
+NAME_TEMPLATES = [
+    'update {t} set {n} = 1, b = 2 where id = 3',
+    'update {t} set b = 2, {n} = {n} + 1, {m} = \'x\' where {m} > 0',
+    'update {t} set {n} = (select {m} from s) where {n} is null',
+    'insert into {t} ({n}, {m}) values (1, 2), (3, 4)',
+    'insert into {t} ({n}) select {m} from s where {n} = 1',
+    'delete from {t} where {n} = 1 and {m} in (1, 2)',
+    'create table {t} ({n} int, {m} varchar(10), c serial)',
+    'create table {t} ({n} int default 0, primary key ({n}))',
+    'drop table {t}',
+    'select {n}, {m} as {n} from {t} as {m} where {n} > 1 group by {n} order by {m} desc',
+    'select x.{n} from {t} x join {t} y on x.{n} = y.{m}',
+    'with {n} as (select 1) select * from {n}',
+]
+
+
+def name_shapes(d):
+    """every statement class the renderer handles, with plain / mixed-case / back-quoted / reserved-word / double-quoted
+    names in every name position (SET keys, INSERT columns, column definitions, table paths, aliases, CTE names)"""
+    out = []
+    for i, tpl in enumerate(NAME_TEMPLATES):
+        for j, n in enumerate(NAMES):
+            m = NAMES[(j + 3 + i) % len(NAMES)]
+            for k, t in enumerate(TABLES):
+                if d != 'mindsdb' and (j + k) % 2:
+                    continue        # the statement grammar is shared: half of the product on the two smaller parsers
+                out.append(tpl.format(t=t, n=n, m=m))
+    return out
+
+
 def case_stream(d, rng, n_mut, n_sent, n_func):
     for s in SHAPES:
         yield dict(src='shape', text=s)
+    for s in name_shapes(d):
+        yield dict(src='names', text=s)
     for s in type_shapes(d):
         yield dict(src='types', text=s)
     for s in interval_shapes(d):
